@@ -5,6 +5,7 @@ package main
 // repository helpers.
 
 import (
+	"go/token"
 	"fmt"
 	"go/types"
 	"regexp"
@@ -169,6 +170,29 @@ func (x *Exec) callValue(st *State, fr *Frame, common *ssa.CallCommon, fnVal Val
 			x.usedIntrinsic(c.name)
 			in(x, st, fr, c)
 			return
+		}
+		if x.contract != nil && x.contract.Directives["abstract-calls"] != nil && len(st.frames) > 0 && fr == st.frames[0] {
+			msig, _ := common.Method.Type().(*types.Signature)
+			bind := map[string]TV{"self": {iv, recvT}}
+			if msig != nil {
+				for i := 0; i < msig.Params().Len() && i < len(args); i++ {
+					bind[fmt.Sprintf("arg%d", i)] = TV{args[i], msig.Params().At(i).Type()}
+					if n := msig.Params().At(i).Name(); n != "" {
+						bind[n] = TV{args[i], msig.Params().At(i).Type()}
+					}
+				}
+			}
+			x.siteAsserts(st, fr, "call", mname, bind)
+			if st.dead {
+				return
+			}
+			var asig *types.Signature
+			if msig != nil {
+				asig = types.NewSignatureType(types.NewVar(token.NoPos, nil, "self", recvT), nil, nil, msig.Params(), msig.Results(), msig.Variadic())
+			}
+			if x.abstractCall(st, fr, c, mname, asig) {
+				return
+			}
 		}
 		if ct := x.prog.contracts.byKey[x.prog.ifaceKey(recvT, mname)]; ct != nil {
 			x.oblige(st, "nil-deref", "method call on nil interface", Not(iv.Nil), common.Pos(), nil)
@@ -356,19 +380,8 @@ func (x *Exec) dispatch(st *State, fr *Frame, c *callCtx) {
 	// contract is applied: the result is arbitrary and the heap is left alone. What the unit then proves
 	// is only what it asserts about the calls themselves (site call assertions) and its own control flow;
 	// listed in evidence as ABSTRACTED.
-	if x.contract != nil && len(st.frames) > 0 && fr == st.frames[0] {
-		for _, d := range x.contract.Directives["abstract-calls"] {
-			if re, err := regexp.Compile(strings.TrimSpace(d)); err == nil && re.MatchString(fn.Name()) {
-				x.notes["ABSTRACTED: call to "+c.name+" (arguments checked by site assertions only; effects not modelled)"] = true
-				var v Value
-				if c.ret != nil {
-					x.callCounter++
-					v = x.symbolic(st, c.ret.Type(), fmt.Sprintf("abstract.%s!%d", fn.Name(), x.callCounter))
-				}
-				x.finish(st, fr, c, v)
-				return
-			}
-		}
+	if x.abstractCall(st, fr, c, fn.Name(), fn.Signature) {
+		return
 	}
 	key := x.prog.funcKey(fn)
 	contract := x.prog.contracts.byKey[key]
@@ -408,6 +421,49 @@ func (x *Exec) dispatch(st *State, fr *Frame, c *callCtx) {
 		}
 	}
 	x.pushFrame(st, fn, c.args, c.ret, c.defer_)
+}
+
+// abstractCall implements "abstract-calls <regexp>" for a call of the unit under verification to a function
+// or interface method called name: arbitrary result, heap untouched, the call recorded under its name
+// (calls("name"), callarg, callswith talk about it).
+func (x *Exec) abstractCall(st *State, fr *Frame, c *callCtx, name string, sig *types.Signature) bool {
+	if x.contract == nil || len(st.frames) == 0 || fr != st.frames[0] {
+		return false
+	}
+	for _, d := range x.contract.Directives["abstract-calls"] {
+		re, err := regexp.Compile(strings.TrimSpace(d))
+		if err != nil || !re.MatchString(name) {
+			continue
+		}
+		x.notes["ABSTRACTED: call to "+c.name+" (arguments checked by site assertions only; effects not modelled)"] = true
+		v := x.symbolicResult(st, c)
+		var as []TV
+		if sig != nil {
+			k := 0
+			if sig.Recv() != nil && len(c.args) > 0 {
+				as = append(as, TV{c.args[0], sig.Recv().Type()})
+				k = 1
+			}
+			for i := 0; i < sig.Params().Len() && k+i < len(c.args); i++ {
+				as = append(as, TV{c.args[k+i], sig.Params().At(i).Type()})
+			}
+		}
+		var results []Value
+		if t, ok := v.(VTuple); ok {
+			results = t.E
+		} else if v != nil {
+			results = []Value{v}
+		}
+		if sig != nil {
+			for i := 0; i < sig.Results().Len(); i++ {
+				as = append(as, TV{nil, sig.Results().At(i).Type()})
+			}
+		}
+		st.rec = append(append([]recordedCall(nil), st.rec...), recordedCall{Name: name, Args: as, Results: results})
+		x.finish(st, fr, c, v)
+		return true
+	}
+	return false
 }
 
 func allowInline(name string) bool {
